@@ -322,6 +322,16 @@ fn unit_hash_after(prop: &str, tier: Tier, seed: u64, list: &[u64], u: u64) -> O
     o.acc.unit_hashes.get(&u).copied()
 }
 
+/// Does a violation with this key show at unit `u` when the units of `list` (ending with `u`) run in this order
+/// in one fresh process?
+fn viol_after(prop: &str, tier: Tier, seed: u64, list: &[u64], u: u64, key: &(String, String, String)) -> bool {
+    let dir = format!("{}/target/run/{}", verif_root(), prop);
+    let _ = std::fs::create_dir_all(&dir);
+    let l = list.iter().map(|x| x.to_string()).collect::<Vec<_>>().join(",");
+    let o = run_worker_ex(prop, tier, seed, 0, 0, 1, &format!("{dir}/crash-hist-{}.json", std::process::id()), 900, Some(l));
+    o.viols.iter().any(|v| v.unit == u && v.key() == *key)
+}
+
 #[allow(clippy::too_many_arguments)]
 fn run_worker_ex(
     prop: &str,
@@ -744,6 +754,55 @@ pub fn check_main(check: &mut dyn CheckImpl, tier: Tier) -> ! {
                 }
             }
         }
+        let mut history_note = String::new();
+        if !ok {
+            // The case alone is clean in a fresh process. If it fails again after the units its worker had run before it,
+            // the code under test keeps state between calls (a thread_local staging buffer, a static cache): the history
+            // is shrunk and becomes the replay.
+            let w = workers.min(check.units(tier, seed).max(1));
+            let mut hist: Vec<u64> = (v.unit % w..v.unit).step_by(w as usize).collect();
+            let key = v.key();
+            let with = |h: &[u64]| -> bool {
+                let mut l = h.to_vec();
+                l.push(v.unit);
+                viol_after(prop, tier, seed, &l, v.unit, &key)
+            };
+            if !hist.is_empty() && with(&hist) {
+                let mut chunk = hist.len().div_ceil(2).max(1);
+                let mut trials = 0;
+                while hist.len() > 1 && trials < 40 {
+                    let mut shrunk = false;
+                    let mut i = 0;
+                    while i < hist.len() && trials < 40 {
+                        let mut cand = hist.clone();
+                        cand.drain(i..(i + chunk).min(cand.len()));
+                        trials += 1;
+                        if !cand.is_empty() && with(&cand) {
+                            hist = cand;
+                            shrunk = true;
+                        } else {
+                            i += chunk;
+                        }
+                    }
+                    if !shrunk {
+                        if chunk == 1 {
+                            break;
+                        }
+                        chunk = chunk.div_ceil(2);
+                    }
+                }
+                let mut units = hist.clone();
+                units.push(v.unit);
+                let mut j2 = j.clone();
+                j2["single_case_replay"] = j["replay"].clone();
+                j2["replay"] = json!({"engine": "history_viol", "tier": tier.name(), "units": units, "key": [oracle, class, subject]});
+                std::fs::write(&path, serde_json::to_string_pretty(&j2).unwrap()).unwrap_or_else(|e| harness_error(&format!("write replay: {e}")));
+                history_note = format!(
+                    " [only after units {hist:?} ran in the same process - alone in a fresh process the case is clean: the code under test keeps state between calls]"
+                );
+                ok = true;
+            }
+        }
         if !ok {
             harness_error(&format!(
                 "violation {oracle}/{class}/{subject} did not reproduce from {path} in a fresh process:\n{out}"
@@ -763,7 +822,7 @@ pub fn check_main(check: &mut dyn CheckImpl, tier: Tier) -> ! {
             None => {
                 n_viol += 1;
                 lines.push(format!("VIOLATION property={prop} replay={path}"));
-                lines.push(format!("  oracle={oracle} class={class} subject={subject} occurrences={count}: {}", v.detail));
+                lines.push(format!("  oracle={oracle} class={class} subject={subject} occurrences={count}: {}{history_note}", v.detail));
             }
         }
         viol_summaries.push(json!({"oracle": oracle, "class": class, "subject": subject, "occurrences": count, "known": ki.is_some()}));
@@ -852,6 +911,24 @@ pub fn replay_main(checks: &mut [Box<dyn CheckImpl>], file: &str) -> ! {
             std::process::exit(1);
         }
         println!("NOT-REPRODUCED: unit {u} hashes the same alone and after its recorded history");
+        std::process::exit(0);
+    }
+    if v["replay"]["engine"].as_str() == Some("history_viol") {
+        let seed = v["seed"].as_u64().unwrap_or(DEFAULT_SEED);
+        let tier = Tier::parse(v["replay"]["tier"].as_str().unwrap_or("quick"));
+        let units: Vec<u64> = v["replay"]["units"].as_array().map(|a| a.iter().filter_map(|x| x.as_u64()).collect()).unwrap_or_default();
+        let Some(&u) = units.last() else { harness_error("history replay without units") };
+        let k = &v["replay"]["key"];
+        let key = (
+            k[0].as_str().unwrap_or("").to_string(),
+            k[1].as_str().unwrap_or("").to_string(),
+            k[2].as_str().unwrap_or("").to_string(),
+        );
+        if viol_after(prop, tier, seed, &units, u, &key) {
+            println!("REPRODUCED oracle={} class={}: at unit {u} after units {:?} in one process", key.0, key.1, &units[..units.len() - 1]);
+            std::process::exit(1);
+        }
+        println!("NOT-REPRODUCED: unit {u} shows no such violation after its recorded history");
         std::process::exit(0);
     }
     alloc::CAP.store(if prop == "C18" { 64 << 20 } else { 1 << 30 }, Ordering::SeqCst);
